@@ -122,8 +122,9 @@ func runDecIsolated(inputs [][]byte) []decResult {
 }
 
 // the linear bound checked on the real decoder: bytes allocated <= allocPerByte*len + allocBase
-// (measured on the repaired tree: < 700 B per input byte on every family below; see DESIGN 6.7)
-const allocPerByte = 4096
+// (measured on the repaired tree over several seeds and the thorough tier: at most 324 B per input byte,
+// reached by valid messages made of many two-byte items; see DESIGN 6.7)
+const allocPerByte = 1024
 const allocBase = 1 << 16
 
 func hostileDecInputs(r *rand.Rand, n int, thorough bool) ([][]byte, []string) {
@@ -155,9 +156,7 @@ func hostileDecInputs(r *rand.Rand, n int, thorough bool) ([][]byte, []string) {
 	}
 	// chains of list headers each declaring a huge count
 	for _, k := range []int{10, 100, 500, 2000} {
-		if k > 500 && !thorough {
-			continue
-		}
+		_ = thorough
 		add(hdr(bytes.Repeat([]byte{0x03, 0xFF, 0xFF, 0xFF}, k)), "nested-huge-lists")
 		add(hdr(bytes.Repeat([]byte{0x02, 0xFF, 0xFF}, k)), "nested-huge-lists")
 		add(hdr(append(bytes.Repeat([]byte{0x01, 0x01}, k), 0x02, 0xFF, 0xFF)), "huge-list-at-end")
@@ -191,6 +190,15 @@ func suiteC07(c *Ctx) []Suite {
 			ins, tags := hostileDecInputs(c.R, c.N(400), c.Tier == "thorough")
 			res := runDecIsolated(ins)
 			var out []Case
+			worst, worstAt := 0.0, ""
+			for i, b := range ins {
+				if ratio := float64(res[i].alloc) / float64(len(b)+64); ratio > worst {
+					worst, worstAt = ratio, fmt.Sprintf("%s len=%d alloc=%d", tags[i], len(b), res[i].alloc)
+				}
+			}
+			if os.Getenv("VERIF_DEBUG") != "" {
+				fmt.Fprintf(os.Stderr, "C07 worst allocation ratio: %.1f bytes per input byte (%s)\n", worst, worstAt)
+			}
 			for i, b := range ins {
 				r := res[i]
 				cs := Case{Nontrivial: true, Tags: []string{tags[i], "outcome:" + r.class}}
@@ -522,38 +530,43 @@ func concWorker(seed int64, rounds int) {
 			cm := completeMsgDesc(r, closed)
 			encs = append(encs, frame(cm.Sid, cm.S, cm.F, cm.W, cm.Sys, encodeVariant(closed, nil)))
 		}
-		type job func() string
+		type job func(salt string) string
 		var jobs []job
 		for i := range items {
 			it, m, text, enc := items[i], msgs[i], texts[i], encs[i]
-			fresh := fmt.Sprintf("fresh_%d_%d", round, i)
 			jobs = append(jobs,
-				func() string { return showItem(it) },
-				func() string { return showMsg(m) },
-				func() string {
+				func(string) string { return showItem(it) },
+				func(string) string { return showMsg(m) },
+				func(salt string) string {
+					// fills that mint names never seen before (ellipsis expansion and renames)
 					env := map[string]interface{}{}
 					for k, v := range it.Variables() {
 						if strings.HasPrefix(v, "...") {
 							env[v] = 2
 						} else if k%2 == 0 {
-							env[v] = fresh + fmt.Sprint(k)
+							env[v] = "n" + salt + fmt.Sprint(k)
 						}
 					}
 					out := "PANIC"
 					safely(func() { out = showItem(it.FillVariables(env)) })
 					return out
 				},
-				func() string { return showMsg(m.SetWaitBit(false).SetSessionIDAndSystemBytes(5, []byte{1, 2, 3, 4})) },
-				func() string { return implSML(text) },
-				func() string { return implDec(enc) },
+				func(string) string { return showMsg(m.SetWaitBit(false).SetSessionIDAndSystemBytes(5, []byte{1, 2, 3, 4})) },
+				func(salt string) string { return implSML(strings.ReplaceAll(text, "\n.", " // "+salt+"\n.")) },
+				func(salt string) string {
+					// a text whose variable names are new in every call
+					return implSML("S1F1 W H->E\n<L\n  <U1 v" + salt + " w" + salt + "[3]>\n  <A[2..5] a" + salt + ">\n  ...\n>\n.")
+				},
+				func(string) string { return implDec(enc) },
 			)
 		}
-		want := make([]string, len(jobs))
-		for i, j := range jobs {
-			want[i] = j()
+		type rec struct {
+			job       int
+			salt, got string
 		}
 		var wg sync.WaitGroup
 		var mu sync.Mutex
+		var recs []rec
 		for g := 0; g < 8; g++ {
 			wg.Add(1)
 			go func(g int) {
@@ -561,15 +574,21 @@ func concWorker(seed int64, rounds int) {
 				rr := rand.New(rand.NewSource(seed + int64(g)))
 				for k := 0; k < 60; k++ {
 					i := rr.Intn(len(jobs))
-					if got := jobs[i](); got != want[i] {
-						mu.Lock()
-						fmt.Printf("DIFF job %d: concurrent result differs from the result alone: %s\n", i, firstDiff(got, want[i]))
-						mu.Unlock()
-					}
+					salt := fmt.Sprintf("r%dg%dk%d", round, g, k)
+					got := jobs[i](salt)
+					mu.Lock()
+					recs = append(recs, rec{i, salt, got})
+					mu.Unlock()
 				}
 			}(g)
 		}
 		wg.Wait()
+		// every concurrent result must equal the result of the same call made alone
+		for _, r := range recs {
+			if want := jobs[r.job](r.salt); want != r.got {
+				fmt.Printf("DIFF job %d: concurrent result differs from the result alone: %s\n", r.job, firstDiff(r.got, want))
+			}
+		}
 	}
 	fmt.Println("DONE")
 }
